@@ -23,6 +23,8 @@
                                             is handed a slot that still holds an error (rc = 1 iff that error object is untouched)
      cfunp <crystal> <E> <h> <k> <l> <debye> <rel_angle> <f0_flag> <fp_flag> <fpp_flag> [<fn>]   Q_scattering_amplitude (fn = q) or
                                             Crystal_F_H_StructureFactor_Partial with every argument from the line
+     cedge <crystal> <hmax> <ulps>          bulk: the Bragg cut-off energies hc/(2d) of every reflection in [-hmax,hmax]^3 and their neighbouring
+                                            doubles through Bragg_angle / Q_scattering_amplitude / F_H / F_H_Partial; own one-line answer (see the op)
      null <k>                               ONE call with NULL at a pointer position the other operations never pass NULL at (list below,
                                             `null_call`); rc = 1 iff the behaviour is the documented one (error / no-op / NULL result)
      cpdeep <depth> <inner> | cplong <n> <unit> [<tail>]     CompoundParser on a string synthesised here: `inner` inside `depth` bracket
@@ -265,6 +267,69 @@ int main(void) {
       else { xrlComplex z = Crystal_F_H_StructureFactor_Partial(c, E, h, kk, l, deb, rel, atoi(tok[8]), atoi(tok[9]), atoi(tok[10]), ep); val = fabs(z.re) + fabs(z.im); }
       rc = val != 0.0; isnum = 1;
       Crystal_Free(c);
+    }
+    else if (!strcmp(op, "cedge") && nt == 4) {
+      /* cedge <crystal> <hmax> <ulps>: the Bragg cut-off of every reflection in the box [-hmax,hmax]^3 of a built-in crystal.  The cut-off
+         energy E0 = KEV2ANGST / (2 d) is computed HERE from the library's own Crystal_dSpacing (bit-identical to what the library can compute
+         from the same d), and E0 -ulps .. +ulps neighbouring doubles (sin(theta) = (hc/E)/(2d) runs through 1 - few ulp .. 1 + few ulp) go through
+         Bragg_angle, Q_scattering_amplitude (rel_angle 1, 0.5, 1.5), Crystal_F_H_StructureFactor and _Partial (2,2,2), each with an error slot
+         and without.  Judged here with the calling contract: no error -> every returned number finite; error -> 0 returned, code
+         XRL_ERROR_INVALID_ARGUMENT, non-empty message; without a slot the bit-identical value.
+         ONE answer line: `cedge name=<crystal> calls=<n> refl=<reflections> skipped=<d-spacing 0 / not finite> ok=<n> err=<n> nv=<violations> d=<blocks> ow=<overwrite diagnostics>`
+         followed by ` | <fn 0..5> <h> <k> <l> x<energy bits> <S|N> x<re bits> x<im bits> e=<0|1> c=<code> m=<message length> w=<0 finite,1 non-finite,2 bad failure,3 slot/no-slot differ>`
+         for the first 24 violations (fn: 0 Bragg_angle, 1..3 Q_scattering_amplitude rel 1/0.5/1.5, 4 F_H, 5 F_H_Partial). */
+      int hmax = atoi(tok[2]), ulps = atoi(tok[3]); if (hmax < 0) hmax = 0; if (hmax > 12) hmax = 12; if (ulps < 0) ulps = 0; if (ulps > 16) ulps = 16;
+      static const double rels[3] = { 1.0, 0.5, 1.5 };
+      static char vbuf[24 * 160]; size_t vlen = 0; long ncall = 0, nrefl = 0, nskip = 0, nok = 0, nerr = 0, nv = 0;
+      const char *cname = unesc(tok[1], b1);
+      if (cname && cname[0] == '#') {                  /* `#<i>`: the i-th name of Crystal_GetCrystalsList(NULL) — `cedge end=<count>` beyond the list */
+        int n = 0, i = atoi(cname + 1); fail_hold++; char **lst = Crystal_GetCrystalsList(NULL, &n, NULL); fail_hold--;
+        if (!lst || i < 0 || i >= n) { free_list(lst, lst ? n : 0); fail_at = 0; printf("cedge end=%d\n", lst ? n : -1); continue; }
+        snprintf(b2, sizeof b2, "%s", lst[i]); free_list(lst, n); cname = b2;
+      }
+      fail_hold++; Crystal_Struct *c = Crystal_GetCrystal(cname, NULL, NULL); fail_hold--;
+      if (!c) { fail_at = 0; printf("bad-op\n"); continue; }
+      vbuf[0] = 0;
+      for (int h = -hmax; h <= hmax; h++) for (int kk = -hmax; kk <= hmax; kk++) for (int l = -hmax; l <= hmax; l++) {
+        double d = Crystal_dSpacing(c, h, kk, l, NULL);
+        if (!(d > 0.0) || !isfinite(d)) { nskip++; continue; }
+        nrefl++;
+        double E0 = KEV2ANGST / (2 * d);
+        for (int j = -ulps; j <= ulps; j++) {
+          double E = E0; for (int s = 0; s < abs(j); s++) E = nextafter(E, j < 0 ? 0.0 : INFINITY);
+          for (int fn = 0; fn < 6; fn++) {
+            double re[2] = { 0, 0 }, im[2] = { 0, 0 }; int he = 0, hc = -1; long hm = 0;
+            for (int ns = 0; ns < 2; ns++) {               /* ns = 0: with an (empty) slot; 1: without */
+              xrl_error *e2 = NULL; xrl_error **q = ns ? NULL : &e2; xrlComplex z = { 0, 0 };
+              if (fn == 0) z.re = Bragg_angle(c, E, h, kk, l, q);
+              else if (fn <= 3) z.re = Q_scattering_amplitude(c, E, h, kk, l, rels[fn - 1], q);
+              else if (fn == 4) z = Crystal_F_H_StructureFactor(c, E, h, kk, l, 1.0, 1.0, q);
+              else z = Crystal_F_H_StructureFactor_Partial(c, E, h, kk, l, 1.0, 1.0, 2, 2, 2, q);
+              re[ns] = z.re; im[ns] = z.im; ncall++;
+              if (!ns) { he = e2 != NULL; if (e2) { hc = (int)e2->code; hm = e2->message ? (long)strlen(e2->message) : -1; xrl_clear_error(&e2); } }
+            }
+            int w = -1, wn = -1;
+            if (he) { nerr++; if (re[0] != 0.0 || im[0] != 0.0 || hc != (int)XRL_ERROR_INVALID_ARGUMENT || hm <= 0) w = 2; }
+            else { nok++; if (!isfinite(re[0]) || !isfinite(im[0])) w = 1; }
+            if (memcmp(&re[0], &re[1], 8) || memcmp(&im[0], &im[1], 8)) wn = 3;
+            else if (!he && (!isfinite(re[1]) || !isfinite(im[1]))) wn = 1;
+            for (int ns = 0; ns < 2; ns++) {
+              int ww = ns ? wn : w; if (ww < 0) continue;
+              nv++;
+              if (nv <= 24) {
+                uint64_t eb, rb, ib; memcpy(&eb, &E, 8); memcpy(&rb, &re[ns], 8); memcpy(&ib, &im[ns], 8);
+                vlen += (size_t)snprintf(vbuf + vlen, sizeof vbuf - vlen, " | %d %d %d %d x%016llx %c x%016llx x%016llx e=%d c=%d m=%ld w=%d", fn, h, kk, l,
+                                         (unsigned long long)eb, ns ? 'N' : 'S', (unsigned long long)rb, (unsigned long long)ib, ns ? 0 : he, ns ? -1 : hc, ns ? 0 : hm, ww);
+              }
+            }
+          }
+        }
+      }
+      snprintf(b2, sizeof b2, "%s", c->name ? c->name : "?");
+      Crystal_Free(c);
+      fail_at = 0; diag_check();
+      printf("cedge name=%s calls=%ld refl=%ld skipped=%ld ok=%ld err=%ld nv=%ld d=%ld ow=%d%s\n", b2, ncall, nrefl, nskip, nok, nerr, nv, live_blocks - base, ow, vbuf);
+      continue;
     }
     else if (!strcmp(op, "af") && nt == 5) {        /* af <Z> <E> <q> <debye> */
       double f0 = 0, fp = 0, fpp = 0;
